@@ -108,3 +108,110 @@ Example C14_example_env :
   /\ slot_env None (mkrun (mkitem 0 1 None) 3 None) =
   [(s_GLOBAL_SLOT, [51]); (s_GROUP, s_at_global); (s_GROUP_SLOT, s_none)].
 Proof. vm_compute. split; reflexivity. Qed.
+
+(* ---- additions -----------------------------------------------------------------------------
+   (i) the environment as a function of the future in progress alone, with the iffs proved;
+   (ii) the group tag of a future is the group of its item, over all operation sequences;
+   (iii) all attempts of one test find the same context, over the composed run model.
+   Proofs: Proofs/FutureQueueGroups.v, Proofs/RunSlots.v. *)
+From NextestModel Require Import Proofs.FutureQueueGroups.
+
+(* (ii) every future in progress and every future ever started carries, as its group tag, the
+   group its test is configured into *)
+Theorem C14_group_tag_is_item_group :
+  forall gm grps items ops,
+    let res := fq_run (fq_new gm grps items) ops in
+    Forall (fun r => rgroup r = it_grp (r_item r)) (running (fst res)) /\
+    Forall (fun r => rgroup r = it_grp (r_item r)) (starts (snd res)).
+Proof. exact group_tag_is_item_group. Qed.
+Print Assumptions C14_group_tag_is_item_group.
+
+(* hence: two tests alive together that are configured into the same group both have a group
+   slot, in that group, and the two differ *)
+Theorem C14_unique_in_item_group :
+  forall gm grps items ops i j ri rj k m,
+    let q := fst (fq_run (fq_new gm grps items) ops) in
+    assoc_first k grps = Some m -> i <> j ->
+    nth_error (running q) i = Some ri -> nth_error (running q) j = Some rj ->
+    it_grp (r_item ri) = Some k -> it_grp (r_item rj) = Some k ->
+    exists ti tj, r_grp ri = Some (k, ti) /\ r_grp rj = Some (k, tj) /\ ti <> tj.
+Proof. exact c14_group_slots_by_item. Qed.
+Print Assumptions C14_unique_in_item_group.
+
+(* (i) [test_env names r]: the three variables computed from the record [r] alone -- the group
+   name from the item's group (test.settings.test_group()), the slots from the context.  [names]
+   is the naming of the groups; a configured name is never "@global" (custom group names are
+   identifiers; the '@' prefix is reserved).  For every future in progress and every future ever
+   started: NEXTEST_TEST_GROUP is "@global" iff the test has no group, and then
+   NEXTEST_TEST_GROUP_SLOT is "none"; it is "none" only then; a test of group k gets the name of k
+   and the decimal slot it holds in k. *)
+Theorem C14_env_of_record :
+  forall gm grps items ops names r,
+    (forall k, names k <> s_at_global) ->
+    let res := fq_run (fq_new gm grps items) ops in
+    In r (running (fst res)) \/ In r (starts (snd res)) ->
+    test_env names r =
+      [ (s_GLOBAL_SLOT, dec_str (r_gslot r)); (s_GROUP, env_group names r);
+        (s_GROUP_SLOT, env_group_slot r) ] /\
+    (env_group names r = s_at_global <-> it_grp (r_item r) = None) /\
+    (env_group_slot r = s_none <-> it_grp (r_item r) = None) /\
+    (forall k, it_grp (r_item r) = Some k ->
+       env_group names r = names k /\
+       exists t, r_grp r = Some (k, t) /\ env_group_slot r = dec_str t).
+Proof. exact env_of_started. Qed.
+Print Assumptions C14_env_of_record.
+
+(* without the link (ii) the second iff is false of an arbitrary record: the legal model value the
+   audit pointed at, "@global" together with a numeric group slot *)
+Example C14_env_needs_link :
+  let r := mkrun (mkitem 0 1 None) 0 (Some (7, 3)) in
+  env_group (fun _ => [103]) r = s_at_global /\ env_group_slot r = [51].
+Proof. vm_compute. split; reflexivity. Qed.
+
+Example C14_example_test_env :
+  let res := fq_run (fq_new 4 [(7, 2)] [mkitem 0 1 None; mkitem 1 1 (Some 7); mkitem 2 1 (Some 7)]) [OpFill] in
+  map (test_env (fun _ => [103])) (running (fst res)) =
+  [ [(s_GLOBAL_SLOT, [48]); (s_GROUP, s_at_global); (s_GROUP_SLOT, s_none)];
+    [(s_GLOBAL_SLOT, [49]); (s_GROUP, [103]); (s_GROUP_SLOT, [48])];
+    [(s_GLOBAL_SLOT, [50]); (s_GROUP, [103]); (s_GROUP_SLOT, [49])] ].
+Proof. vm_compute. reflexivity. Qed.
+
+(* (iii) over the composed run model (Model/Run.v: scheduler x executor protocol x dispatcher).
+   [ctx_of q t] is the context the scheduler holds for test t; an attempt event of t is Started,
+   Slow, AttemptFailedWillRetry, RetryStarted or Finished of t.  In every run the composed machine
+   accepts, any two attempt events of one test -- the first attempt's Started and a retry's
+   RetryStarted or the final Finished, say -- find the same context, and it is the record of a
+   start event the scheduler had emitted before the first of them (so its slots are the
+   least-free ones of C14_least_free, fixed at dispatch). *)
+From NextestModel Require Import Model.Dispatcher Model.Unit Model.Run Proofs.Unit Proofs.Run Proofs.RunSlots.
+
+Theorem C14_attempts_same_slots :
+  forall r mf dbg xs1 e1 xs2 e2 xs3 sf t,
+    rrun r (rinit r mf dbg) (xs1 ++ REvent e1 :: xs2 ++ REvent e2 :: xs3) = Some sf ->
+    attempt_event t e1 -> attempt_event t e2 ->
+    exists s1 s2 cx,
+      rrun r (rinit r mf dbg) xs1 = Some s1 /\
+      rrun r (rinit r mf dbg) (xs1 ++ REvent e1 :: xs2) = Some s2 /\
+      ctx_of (r_q s1) t = Some cx /\ ctx_of (r_q s2) t = Some cx /\
+      it_id (r_item cx) = t /\
+      In (EvStart cx)
+         (snd (fq_run (fq_new (rc_gm r) (rc_grps r) (rc_items r)) (ops_of xs1))).
+Proof. exact attempts_same_context. Qed.
+Print Assumptions C14_attempts_same_slots.
+
+(* the example run of Properties/Run.v: test 1 (group 0) is retried once; its context at Started,
+   at AttemptFailedWillRetry, at RetryStarted and at Finished is global slot 1, group slot 0, while
+   test 0 comes and goes and slot 0 is free again *)
+Definition ctx_before (n : nat) (t : N) : option (N * option (N * N)) :=
+  match rrun ex_rcfg (rinit ex_rcfg None true) (firstn n ex_schedule) with
+  | Some s => option_map (fun cx => (r_gslot cx, r_grp cx)) (ctx_of (r_q s) t)
+  | None => None
+  end.
+
+Example C14_example_attempts :
+  map (fun n => ctx_before n 1) [3; 6; 7; 8]%nat = repeat (Some (1, Some (0, 0))) 4
+  /\ map (fun n => nth_error ex_schedule n) [3; 6; 7; 8]%nat
+     = [Some (REvent (Started 1)); Some (REvent (AttemptFailedWillRetry 1 (f_att 1 2)));
+        Some (REvent (RetryStarted 1 2 2)); Some (REvent (Finished 1 (p_att 2 2)))]
+  /\ ctx_before 10 1 = None /\ ctx_before 10 2 = Some (0, Some (0, 0)).
+Proof. repeat split; vm_compute; reflexivity. Qed.
